@@ -1,7 +1,7 @@
 #!/bin/bash
 # usage: tools/run_seeds.sh [seed ids...]   -- applies each kept seed to /repo, runs its property's check, reverts
 cd /verif
-ids=${@:-$(ls seeded)}
+ids=${@:-$(ls -d seeded/*/ | xargs -n1 basename)}
 for id in $ids; do
   prop=$(python3 -c "import json;print(json.load(open('seeded/$id/meta.json'))['property'])")
   flags="--no-kani"; case $prop in C11) flags="";; esac
